@@ -45,7 +45,7 @@ def _pipeline(ck, p, byk):
         arm = arm_blocks(cfg, tb)
         load = _find(f, arm, load_n)
         save = _find(f, arm, save_n)
-        upd = _find(f, arm, "update_document_from_file") + _find(f, arm, "update_document")
+        upd = _find(f, arm, "update_document_from_file") + _find(f, arm, "update_document") + _find(f, arm, "refresh_document")
         pub = _find(f, arm, "publish_diagnostics")
         app = [(bi, t) for bi, t in f.calls() if bi in arm and inst_of(t).endswith("mutable_dictionary::{impl}::append_word")]
         stages = [("load", load), ("append_word", app), ("save", save), ("refresh", upd), ("publish", pub)]
